@@ -228,6 +228,50 @@ def check_krondot(ctx, fi):
     tr = [c for c in calls_in(fi.node) if isinstance(c.func, ast.Attribute) and c.func.attr == 'transpose']
     ok = bool(tr) and elim is not None and U(tr[0].args[0]).replace(' ', '') == "['%s-answer'%aforain" + elim + ']'
     ctx.ob('requested-order', fi, tr[0] if tr else fi.node, ok, 'the result is transposed to the answer axes in domain order')
+    # the normaliser the answers are divided by is the partition function of the model alone: it must not depend on the query
+    # matrices (flow-sensitive dependency walk: `factors` depends on them only after the query factors have been appended)
+    dep = {m}
+
+    def mentions(e):
+        return any(isinstance(n, ast.Name) and n.id in dep for n in ast.walk(e))
+
+    def walk(stmts):
+        for st in stmts:
+            if isinstance(st, ast.Assign):
+                hit = mentions(st.value)
+                for t in st.targets:
+                    for nm in target_names(t):
+                        (dep.add if hit else dep.discard)(nm)
+            elif isinstance(st, ast.AugAssign):
+                if mentions(st.value):
+                    dep.update(target_names(st.target))
+            elif isinstance(st, ast.Expr) and isinstance(st.value, ast.Call) and isinstance(st.value.func, ast.Attribute) \
+                    and isinstance(st.value.func.value, ast.Name) and st.value.func.attr in ('append', 'extend', 'insert', 'update', 'add'):
+                if any(mentions(a) for a in st.value.args):
+                    dep.add(st.value.func.value.id)
+            elif isinstance(st, ast.For):
+                if mentions(st.iter):
+                    dep.update(target_names(st.target))
+                walk(st.body)
+                walk(st.body)
+            elif isinstance(st, ast.If):
+                walk(st.body)
+                walk(st.orelse)
+            elif isinstance(st, ast.Return) and st.value is not None:
+                v = st.value
+                divs = []
+                while isinstance(v, ast.BinOp) and isinstance(v.op, (ast.Div, ast.Mult)):
+                    if isinstance(v.op, ast.Div):
+                        divs.append(v.right)
+                    v = v.left
+                if not divs:
+                    raise AnalysisError('GraphicalModel.krondot: the answers are not divided by a normaliser: `%s`' % U(st.value)[:100])
+                for d in divs:
+                    ctx.ob('ve-equations', fi, st, not mentions(d),
+                           'the Kronecker answers must be normalised by the partition function of the model alone; the divisor `%s` %s'
+                           % (U(d), 'depends on the query matrices (the answers are rescaled to sum to the total whatever the queries are)'
+                              if mentions(d) else 'does not depend on the query matrices'), construct='normaliser of krondot')
+    walk(fi.body)
 
 
 def check_cache(ctx):
